@@ -38,7 +38,7 @@ impl Display for Format<'_, IntegerTerm> {
         match self.0 {
             IntegerTerm::Numeral(n) => {
                 if *n < 0 {
-                    let m = n.abs();
+                    let m = n.unsigned_abs();
                     write!(f, "$uminus({m})")?;
                 } else {
                     write!(f, "{n}")?;
